@@ -71,7 +71,7 @@ impl Prop for C07 {
     }
 
     fn cases(tier: Tier) -> u64 {
-        tier.pick(30_000, 1_000_000)
+        tier.pick(60_000, 1_000_000)
     }
 
     fn strategy(tier: Tier) -> BoxedStrategy<Case> {
